@@ -532,7 +532,7 @@ func init() {
 		c12RunFlow(c, res)
 		return res.Viol, nil
 	}
-	registerCheck("C12", "model_checking", 120*time.Second, 20*time.Minute, func(r *Run) {
+	registerCheck("C12", "exploration", 120*time.Second, 20*time.Minute, func(r *Run) {
 		maxSeg := 3
 		if !r.Quick() {
 			maxSeg = 4
